@@ -125,6 +125,10 @@ func getHostApplicationConfig(node *corev1.Node, cfg *configuration.HostApplicat
 			continue
 		}
 		if selector.Matches(nodeLabels) {
+			if nodeCfg.Applications == nil {
+				// the first matching entry does not set the applications: the cluster-wide list applies
+				break
+			}
 			out := make([]slov1alpha1.HostApplicationSpec, len(nodeCfg.Applications))
 			for i := range nodeCfg.Applications {
 				nodeCfg.Applications[i].DeepCopyInto(&out[i])
